@@ -38,49 +38,180 @@ FUNCS = {
                                     'unittwist_norm', 'unittwist2_norm'],
     'spatialmath/base/transformsNd.py': ['iseye', 'skew', 'vex', 'rodrigues'],
     'spatialmath/base/transforms3d.py': ['trlog', 'trexp'],
-    'spatialmath/base/transforms2d.py': ['trexp2'],
+    'spatialmath/base/transforms2d.py': ['trexp2', 'trlog2'],
 }
 
 # (SOFT, see EXPECTED_SOFT) the statement skeleton the hand model (theories/Model/C03_ExpLog.v) was written against: if-tests (local
 # variable names replaced by `_`, numeric factors of _eps by `K`), else / return / raise markers, in source order
-EXPECTED_SKELETON = {
-    'iseye': ['if len(_) != 2 or _[0] != _[1]', 'return', 'endif', 'return'],
-    'isunittwist': ['if len(v) == 6', 'return', 'else', 'raise ValueError', 'endif'],
-    'isunittwist2': ['if len(v) == 3', 'return', 'else', 'raise ValueError', 'endif'],
-    'isunitvec': ['return'],
-    'iszero': ['return'],
-    'iszerovec': ['return'],
-    'rodrigues': ['if base.iszerovec(w)', 'if len(w) == 1', 'return', 'else', 'return', 'endif', 'endif',
-                  'if theta is None', 'endif', 'return'],
-    'skew': ['if len(v) == 1', 'return', 'else', 'if len(v) == 3', 'return', 'else', 'raise ValueError', 'endif', 'endif'],
-    'trexp': ['if base.ismatrix(S, (4, 4)) or base.isvector(S, 6)', 'if base.ismatrix(S, (4, 4))',
-              'if check and (not base.isskewa(S))', 'raise ValueError', 'endif', 'else', 'endif',
-              'if base.iszerovec(_)', 'return', 'endif', 'if theta is None', 'else', 'if theta == 0', 'return', 'else',
-              'if not base.isunittwist(_)', 'raise ValueError', 'endif', 'endif', 'endif', 'return', 'else',
-              'if base.ismatrix(S, (3, 3)) or base.isvector(S, 3)', 'if base.ismatrix(S, (3, 3))',
-              'if check and (not base.isskew(S))', 'raise ValueError', 'endif', 'else', 'endif',
-              'if theta is not None and (not base.isunitvec(_))', 'raise ValueError', 'endif', 'return', 'else',
-              'raise ValueError', 'endif', 'endif'],
-    'trexp2': ['if base.ismatrix(S, (3, 3)) or base.isvector(S, 3)', 'if base.ismatrix(S, (3, 3))',
-               'if check and (not base.isskewa(S))', 'raise ValueError', 'endif', 'else', 'endif',
-               'if base.iszerovec(_)', 'return', 'endif', 'if theta is None', 'else', 'if not base.isunittwist2(_)',
-               'raise ValueError', 'endif', 'endif', 'return', 'else',
-               'if base.ismatrix(S, (2, 2)) or base.isvector(S, 1)', 'if base.ismatrix(S, (2, 2))',
-               'if check and (not base.isskew(S))', 'raise ValueError', 'endif', 'else', 'endif',
-               'if theta is not None and (not base.isunitvec(_))', 'raise ValueError', 'endif', 'return', 'else',
-               'raise ValueError', 'endif', 'endif'],
-    'trlog': ['if ishom(T, check=check)', 'if base.iseye(T)', 'if twist', 'return', 'else', 'return', 'endif', 'else',
-              'if base.iseye(_)', 'if twist', 'return', 'else', 'return', 'endif', 'else', 'if twist', 'return', 'else',
-              'return', 'endif', 'endif', 'endif', 'else', 'if isrot(T, check=check)', 'if base.iseye(_)', 'if twist',
-              'return', 'else', 'return', 'endif', 'else', 'if abs(np.trace(_) + 1) < K * _eps', 'if twist', 'return',
-              'else', 'return', 'endif', 'else', 'if twist', 'return', 'else', 'return', 'endif', 'endif', 'endif',
-              'else', 'raise ValueError', 'endif', 'endif'],
-    'unittwist2_norm': ['if iszero(_)', 'else', 'endif', 'return'],
-    'unittwist_norm': ['if iszerovec(S, tol=tol)', 'return', 'endif', 'if iszerovec(_)', 'else', 'endif', 'return'],
-    'unitvec_norm': ['if _ > K * _eps', 'return', 'else', 'return', 'endif'],
-    'vex': ['if s.shape == (3, 3)', 'if check and (not isskew(s))', 'raise ValueError', 'endif', 'return', 'else',
-            'if s.shape == (2, 2)', 'return', 'else', 'raise ValueError', 'endif', 'endif'],
-}
+EXPECTED_SKELETON = {'iseye': ['if len(_) != 2 or _[0] != _[1]', 'return', 'endif', 'return'],
+ 'isunittwist': ['if len(v) == 6', 'return', 'else', 'raise ValueError', 'endif'],
+ 'isunittwist2': ['if len(v) == 3', 'return', 'else', 'raise ValueError', 'endif'],
+ 'isunitvec': ['return'],
+ 'iszero': ['return'],
+ 'iszerovec': ['return'],
+ 'rodrigues': ['if base.iszerovec(w)', 'if len(w) == 1', 'return', 'else', 'return', 'endif', 'endif', 'if theta is None', 'endif', 'return'],
+ 'skew': ['if len(v) == 1', 'return', 'else', 'if len(v) == 3', 'return', 'else', 'raise ValueError', 'endif', 'endif'],
+ 'trexp': ['if base.ismatrix(S, (4, 4)) or base.isvector(S, 6)',
+           'if base.ismatrix(S, (4, 4))',
+           'if check and (not base.isskewa(S))',
+           'raise ValueError',
+           'endif',
+           'else',
+           'endif',
+           'if base.iszerovec(_)',
+           'return',
+           'endif',
+           'if theta is None',
+           'else',
+           'if theta == 0',
+           'return',
+           'else',
+           'if not base.isunittwist(_)',
+           'raise ValueError',
+           'endif',
+           'endif',
+           'endif',
+           'return',
+           'else',
+           'if base.ismatrix(S, (3, 3)) or base.isvector(S, 3)',
+           'if base.ismatrix(S, (3, 3))',
+           'if check and (not base.isskew(S))',
+           'raise ValueError',
+           'endif',
+           'else',
+           'endif',
+           'if theta is not None and (not base.isunitvec(_))',
+           'raise ValueError',
+           'endif',
+           'return',
+           'else',
+           'raise ValueError',
+           'endif',
+           'endif'],
+ 'trexp2': ['if base.ismatrix(S, (3, 3)) or base.isvector(S, 3)',
+            'if base.ismatrix(S, (3, 3))',
+            'if check and (not base.isskewa(S))',
+            'raise ValueError',
+            'endif',
+            'else',
+            'endif',
+            'if base.iszerovec(_)',
+            'return',
+            'endif',
+            'if theta is None',
+            'else',
+            'if not base.isunittwist2(_)',
+            'raise ValueError',
+            'endif',
+            'endif',
+            'return',
+            'else',
+            'if base.ismatrix(S, (2, 2)) or base.isvector(S, 1)',
+            'if base.ismatrix(S, (2, 2))',
+            'if check and (not base.isskew(S))',
+            'raise ValueError',
+            'endif',
+            'else',
+            'endif',
+            'if theta is not None and (not base.isunitvec(_))',
+            'raise ValueError',
+            'endif',
+            'return',
+            'else',
+            'raise ValueError',
+            'endif',
+            'endif'],
+ 'trlog': ['if ishom(T, check=check)',
+           'if base.iseye(T)',
+           'if twist',
+           'return',
+           'else',
+           'return',
+           'endif',
+           'else',
+           'if base.iseye(_)',
+           'if twist',
+           'return',
+           'else',
+           'return',
+           'endif',
+           'else',
+           'if twist',
+           'return',
+           'else',
+           'return',
+           'endif',
+           'endif',
+           'endif',
+           'else',
+           'if isrot(T, check=check)',
+           'if base.iseye(_)',
+           'if twist',
+           'return',
+           'else',
+           'return',
+           'endif',
+           'else',
+           'if abs(np.trace(_) + 1) < K * _eps',
+           'if np.dot(_, _) < 0',
+           'endif',
+           'if twist',
+           'return',
+           'else',
+           'return',
+           'endif',
+           'else',
+           'if twist',
+           'return',
+           'else',
+           'return',
+           'endif',
+           'endif',
+           'endif',
+           'else',
+           'raise ValueError',
+           'endif',
+           'endif'],
+ 'trlog2': ['if ishom2(T, check=check)',
+            'if base.iseye(T)',
+            'if twist',
+            'return',
+            'else',
+            'return',
+            'endif',
+            'else',
+            'if twist',
+            'return',
+            'else',
+            'return',
+            'endif',
+            'endif',
+            'else',
+            'if isrot2(T, check=check)',
+            'if twist',
+            'return',
+            'else',
+            'return',
+            'endif',
+            'else',
+            'raise ValueError',
+            'endif',
+            'endif'],
+ 'unittwist2_norm': ['if iszero(_)', 'else', 'endif', 'return'],
+ 'unittwist_norm': ['if iszerovec(S, tol=tol)', 'return', 'endif', 'if iszerovec(_)', 'else', 'endif', 'return'],
+ 'unitvec_norm': ['if _ > K * _eps', 'return', 'else', 'return', 'endif'],
+ 'vex': ['if s.shape == (3, 3)',
+         'if check and (not isskew(s))',
+         'raise ValueError',
+         'endif',
+         'return',
+         'else',
+         'if s.shape == (2, 2)',
+         'return',
+         'else',
+         'raise ValueError',
+         'endif',
+         'endif']}
 
 # HARD: guard multiset (see _guards) the hand model was written against; (tests, flag parameters)
 EXPECTED_GUARDS = {'iseye': (['len(S.shape) != 2 or S.shape[0] != S.shape[1]'], []),
@@ -114,8 +245,15 @@ EXPECTED_GUARDS = {'iseye': (['len(S.shape) != 2 or S.shape[0] != S.shape[1]'], 
              'theta is None',
              'theta is not None and (not base.isunitvec(_))'],
             []),
- 'trlog': (['abs(np.trace(_) + 1) < K * _eps', 'base.iseye(T)', 'base.iseye(_)', 'base.iseye(_)', 'ishom(T, check=check)', 'isrot(T, check=check)'],
+ 'trlog': (['abs(np.trace(_) + 1) < K * _eps',
+            'base.iseye(T)',
+            'base.iseye(_)',
+            'base.iseye(_)',
+            'ishom(T, check=check)',
+            'isrot(T, check=check)',
+            'np.dot(_, base.vex((_ - _.T) / 2)) < 0'],
            ['twist']),
+ 'trlog2': (['_ == 0', 'base.iseye(T)', 'ishom2(T, check=check)', 'isrot2(T, check=check)'], ['twist']),
  'unittwist2_norm': (['iszero(S[2])'], []),
  'unittwist_norm': (['iszerovec(S, tol=tol)', 'iszerovec(S[3:6])'], []),
  'unitvec_norm': (['np.linalg.norm(v) > K * _eps'], []),
@@ -175,15 +313,15 @@ EXPECTED_SOFT = {'iseye': {'calls': ['eye', 'len', 'norm'], 'consts': ['0', '1',
  'trlog': {'calls': ['Ab2M',
                      'ValueError',
                      'abs',
-                     'acos',
                      'argmax',
+                     'atan2',
                      'diagonal',
+                     'dot',
                      'eye',
                      'iseye',
                      'ishom',
                      'isrot',
                      'norm',
-                     'sin',
                      'skew',
                      'sqrt',
                      'tan',
@@ -194,6 +332,9 @@ EXPECTED_SOFT = {'iseye': {'calls': ['eye', 'len', 'norm'], 'consts': ['0', '1',
                      'zeros'],
            'consts': ['0', '1', '100', '2', '3', '4', '6'],
            'raises': ['ValueError']},
+ 'trlog2': {'calls': ['ValueError', 'array', 'atan2', 'iseye', 'ishom2', 'isrot2', 'skew', 'skewa', 'tan', 'zeros'],
+            'consts': ['0', '1', '1.0', '2', '3'],
+            'raises': ['ValueError']},
  'unittwist2_norm': {'calls': ['abs', 'getvector', 'iszero', 'norm'], 'consts': ['0', '2', '3'], 'raises': []},
  'unittwist_norm': {'calls': ['getvector', 'iszerovec', 'norm'], 'consts': ['0', '10', '3', '6'], 'raises': []},
  'unitvec_norm': {'calls': ['getvector', 'norm'], 'consts': ['100'], 'raises': []},
@@ -438,6 +579,8 @@ Definition m_trlog_se3_mat {T} (O : ops T) (Tm : M44 T) := trlog_se3_mat O C03_t
 Definition m_trexp2_so2 {T} (O : ops T) (w : T) := res_opt (trexp2_so2 O C03_thr w).
 Definition m_trexp2_se2 {T} (O : ops T) (tw : V3 T) := res_opt (trexp2_se2 O C03_thr tw).
 Definition m_trexp2_se2_th {T} (O : ops T) (tw : V3 T) (th : T) := res_opt (trexp2_se2_th O C03_thr tw th).
+Definition m_trlog2_so2 {T} (O : ops T) (Rm : M22 T) : T := trlog2_so2 O Rm.
+Definition m_trlog2_se2_tw {T} (O : ops T) (Tm : M33 T) := trlog2_se2_tw O C03_thr Tm.
 """
 
 
@@ -590,10 +733,49 @@ def mk_samplers(ctx, K):
             ('unit-prismatic', lambda rng: [np.r_[rand_unit(rng, 2), 0.0], theta(rng)]),
             ('not-unit', lambda rng: [np.r_[t2(rng), rng.choice([-1.0, 1.0]) * (1 + log_uniform(rng, 4 * kiu * EPS, 0.5))], theta(rng)]),
         ]
+    def ang2(rng):
+        r = rng.random()
+        sg = rng.choice([-1.0, 1.0])
+        if r < 0.3:
+            return sg * (math.pi - log_uniform(rng, 1e-15, 1e-3))
+        if r < 0.4:
+            return sg * math.pi
+        if r < 0.6:
+            return sg * log_uniform(rng, 1e-12, 1e-2)
+        return rng.uniform(-math.pi, math.pi)
+
+    def R2_classes():
+        return [
+            ('identity', lambda rng: [np.eye(2)]),
+            ('tiny', lambda rng: [rot2_np(rng.choice([-1.0, 1.0]) * log_uniform(rng, 1e-17, 1e-9))]),
+            ('near-half-turn', lambda rng: [rot2_np(rng.choice([-1.0, 1.0]) * (math.pi - log_uniform(rng, 1e-15, 1e-3)))]),
+            ('half-turn', lambda rng: [rot2_np(rng.choice([-1.0, 1.0]) * math.pi)]),
+            ('any', lambda rng: [rot2_np(rng.uniform(-math.pi, math.pi))]),
+        ]
+
+    def T2_classes():
+        def mk(thf, tf):
+            def f(rng):
+                T = np.eye(3)
+                T[:2, :2] = rot2_np(thf(rng))
+                T[:2, 2] = tf(rng)
+                return [T]
+            return f
+        big = lambda rng: rand_unit(rng, 2) * log_uniform(rng, 1e-6, 1e6)
+        return [
+            ('identity', mk(lambda rng: 0.0, lambda rng: np.zeros(2))),
+            ('inside-eye-thr', mk(lambda rng: 0.0, lambda rng: rand_unit(rng, 2) * rng.uniform(0, ke / 2) * EPS)),
+            ('pure-translation-theta-exactly-zero', mk(lambda rng: 0.0, lambda rng: rand_unit(rng, 2) * log_uniform(rng, 2 * ke * EPS, 1e6))),
+            ('tiny-rotation', mk(lambda rng: rng.choice([-1.0, 1.0]) * log_uniform(rng, 2 * ke * EPS, 1e-6), t2)),
+            ('near-half-turn', mk(lambda rng: rng.choice([-1.0, 1.0]) * (math.pi - log_uniform(rng, 1e-15, 1e-3)), big)),
+            ('half-turn', mk(lambda rng: rng.choice([-1.0, 1.0]) * math.pi, big)),
+            ('any', mk(ang2, t2)),
+        ]
     C = lambda name, cl: Cycle(ctx, name, cl)
     wrapR = lambda cl: [(lab, (lambda f: lambda rng: [f(rng)])(f)) for lab, f in cl]
     return dict(so3=so3_vec_classes, se3=se3_vec_classes, so3_th=so3_th_classes, se3_th=se3_th_classes,
                 R=lambda: wrapR(R_classes()), T=T_classes, so2=so2_classes, se2=se2_classes, se2_th=se2_th_classes,
+                R2=R2_classes, T2=T2_classes,
                 C=C, R_raw=R_classes)
 
 
@@ -721,6 +903,10 @@ def build(ctx, K):
             sampler=C('trexp2_se2', S['se2']()), tol=tol)
     g.model('m_trexp2_se2_th', [('tw', 'V3'), ('th', 'S')], 'O:M33', coq='m_trexp2_se2_th', module=M,
             num_fn=lambda tw, th: base.trexp2(tw, th), sampler=C('trexp2_se2_th', S['se2_th']()), tol=tol)
+    g.model('m_trlog2_so2', [('R', 'M22')], 'S', coq='m_trlog2_so2', module=M,
+            num_fn=with_np(lambda R: base.trlog2(R, check=False, twist=True)), sampler=C('trlog2_so2', S['R2']()), tol=tol)
+    g.model('m_trlog2_se2_tw', [('T', 'M33')], 'V3', coq='m_trlog2_se2_tw', module=M,
+            num_fn=with_np(lambda T: base.trlog2(T, check=False, twist=True)), sampler=C('trlog2_se2_tw', S['T2']()), tol=tol)
     return g, S
 
 
